@@ -135,6 +135,10 @@ def run(chk: Check):
             # a nearly exhausted space: the samplers keep proposing the same few vectors (the history is full of repeated parameter vectors),
             # most of them with a loss that does not round to zero, one or two with a loss that does
             vals = [0.0, 0.5, 1.0, 1.5, 2.0] if scn.dims == 1 else [0.0, 1.0]
+            if i % 10 == 7 or scn.dims <= 2:
+                # ... and the DECLARED space is that small too (5 points, or 3 per parameter): the run samples more rows than the space has points
+                scn.bounds = (tuple(0.0 for _ in range(scn.dims)), tuple((2.0 if scn.dims == 1 else 1.0) for _ in range(scn.dims)))
+                chk.count("declared_space_smaller_than_the_number_of_rows_sampled")
             scn.lineup = [(c, bs, [[[rng.choice(vals) for _ in range(scn.dims)] for _ in range(bs)] for _ in script], cs) for (c, bs, script, cs) in scn.lineup]
             h = 0.5 * 10.0 ** (-scn.conv)
             thetas = sorted({tuple(r) for (_, _, script, _) in scn.lineup for call in script for r in call})
